@@ -35,6 +35,7 @@ pub fn seed_names(thorough: bool) -> Vec<String> {
         v.push("root-wod-v18-writer".into());
         v.push("group-writer-mop".into());
         v.push("group-modern".into());
+        v.push("group-flat-v17".into());
     }
     v
 }
@@ -407,6 +408,17 @@ fn mver(v: u32) -> Vec<u8> {
     chunk("MVER", &v.to_le_bytes())
 }
 
+/// The layout of the crate's own unit test (tests/group_parser_test.rs): a header-only MOGP and
+/// the geometry chunks as top-level siblings (parse_group_file has match arms for them).
+fn assemble_group_flat(version_raw: u32, subs: &[Vec<u8>]) -> Vec<u8> {
+    let mut out = mver(version_raw);
+    out.extend_from_slice(&chunk("MOGP", &mogp_header()));
+    for s in subs {
+        out.extend_from_slice(s);
+    }
+    out
+}
+
 fn assemble_group(version_raw: u32, subs: &[Vec<u8>]) -> Vec<u8> {
     let mut payload = mogp_header();
     for s in subs {
@@ -461,7 +473,7 @@ fn build_group(name: &str) -> Vec<u8> {
             let subs: Vec<Vec<u8>> = writer_subchunks(WmoVersion::Mop).into_iter().map(|s| s.1).collect();
             assemble_group(17, &subs)
         }
-        "group-v17" | "group-modern" => {
+        "group-v17" | "group-modern" | "group-flat-v17" => {
             let ws: HashMap<String, Vec<u8>> = writer_subchunks(WmoVersion::Classic).into_iter().collect();
             let take = |t: &str| ws.get(t).cloned().unwrap_or_else(|| panic!("writer did not produce {t}"));
             let mut molr = W(Vec::new());
@@ -517,7 +529,11 @@ fn build_group(name: &str) -> Vec<u8> {
                 }
                 subs.push(chunk("MOQG", &w.0));
             }
-            assemble_group(17, &subs)
+            if name == "group-flat-v17" {
+                assemble_group_flat(17, &subs)
+            } else {
+                assemble_group(17, &subs)
+            }
         }
         _ => wverif_common::tool_error(&format!("wmo: unknown seed {name}")),
     }
@@ -700,7 +716,8 @@ fn group_inventory(s: &mut Seed) {
     s.field(h + 64, 2, "index", "MOGP.parent_split_group");
     s.field(h + 66, 2, "index", "MOGP.next_split_child");
 
-    let subs = add_chunk_seq(s, "MOGP", h + 68, mo + mtot, vec![mo + 4], true);
+    // sub-chunks: nested in the MOGP payload, or (flat layout) the top-level siblings behind it
+    let subs = if mtot > 8 + 68 { add_chunk_seq(s, "MOGP", h + 68, mo + mtot, vec![mo + 4], true) } else { top.clone() };
     let find = |t: &str| subs.iter().find(|c| c.2 == t).map(|c| (c.0, c.1));
     let pay = |t: &str| find(t).map(|c| c.0 + 8);
     let movt = pay("MOVT").unwrap_or(mo + mtot);
